@@ -92,7 +92,22 @@ Inductive ev :=
 | EvWait (timeout nev : Z)           (* epoll_wait was called with this timeout and returned nev events *)
 | EvUsleep                           (* the poll source dropped an event it could not resolve *)
 | EvRunRet                           (* qb_loop_run returned *)
-| EvUaf (what : Z).                  (* the C code would touch freed memory here *)
+| EvUaf (what : Z)                   (* the C code would touch freed memory here *)
+(* ghost events (not printed): registration uid created at priority p / its callback entered /
+   removed (delete call succeeded, or the callback asked for removal); kind 0 job, 1 timer, 2 fd, 3 signal *)
+| EvAdd (kind uid : Z) (p : prio)
+| EvInv (kind uid : Z)
+| EvDel (kind uid : Z).
+
+(* which repairs the modelled tree contains (constants regenerated from the tree by behavioural probes,
+   harness/consts/loop.c); the model follows the code either way *)
+Record fixes := { fx_polladd : bool;   (* fixes/C08-poll-add-failure: a failed add clears the whole entry *)
+                  fx_sigdel : bool;    (* fixes/C08-signal-del-clones: signal_del removes every clone *)
+                  fx_runtodo : bool }. (* C09's run-pending-todo: run starts with the todo left over *)
+Definition fixes_all : fixes := {| fx_polladd := true; fx_sigdel := true; fx_runtodo := true |}.
+Definition fixes_none : fixes := {| fx_polladd := false; fx_sigdel := false; fx_runtodo := false |}.
+Definition tree_fixes : fixes :=
+  {| fx_polladd := LOOP_FIX_POLLADD =? 1; fx_sigdel := LOOP_FIX_SIGDEL =? 1; fx_runtodo := LOOP_FIX_RUNTODO =? 1 |}.
 
 Record state := {
   lv : prio -> level;
@@ -103,24 +118,26 @@ Record state := {
   (* environment *)
   now : Z; kset : list kreg; sigpipe : list Z; rand : list Z; randn : Z;
   (* harness: handle registers, per-key invocation counts, allocation counter *)
-  regs : list (Z * Z); cnt : list (Z * Z); next_uid : Z;
+  regs : list (Z * Z) (* timer handles *); sregs : list (Z * Z) (* signal handles *); cnt : list (Z * Z); next_uid : Z;
   (* ghost / observable *)
-  out : list ev (* newest first *); uaf : bool }.
+  out : list ev (* newest first *); uaf : bool;
+  fx : fixes (* never changes *) }.
 
-Definition set_lv_f (f : prio -> level) st := Build_state f (timers st) (polls st) (sigs st) (stop st) (now st) (kset st) (sigpipe st) (rand st) (randn st) (regs st) (cnt st) (next_uid st) (out st) (uaf st).
-Definition set_timers v st := Build_state (lv st) v (polls st) (sigs st) (stop st) (now st) (kset st) (sigpipe st) (rand st) (randn st) (regs st) (cnt st) (next_uid st) (out st) (uaf st).
-Definition set_polls v st := Build_state (lv st) (timers st) v (sigs st) (stop st) (now st) (kset st) (sigpipe st) (rand st) (randn st) (regs st) (cnt st) (next_uid st) (out st) (uaf st).
-Definition set_sigs v st := Build_state (lv st) (timers st) (polls st) v (stop st) (now st) (kset st) (sigpipe st) (rand st) (randn st) (regs st) (cnt st) (next_uid st) (out st) (uaf st).
-Definition set_stop v st := Build_state (lv st) (timers st) (polls st) (sigs st) v (now st) (kset st) (sigpipe st) (rand st) (randn st) (regs st) (cnt st) (next_uid st) (out st) (uaf st).
-Definition set_now v st := Build_state (lv st) (timers st) (polls st) (sigs st) (stop st) v (kset st) (sigpipe st) (rand st) (randn st) (regs st) (cnt st) (next_uid st) (out st) (uaf st).
-Definition set_kset v st := Build_state (lv st) (timers st) (polls st) (sigs st) (stop st) (now st) v (sigpipe st) (rand st) (randn st) (regs st) (cnt st) (next_uid st) (out st) (uaf st).
-Definition set_sigpipe v st := Build_state (lv st) (timers st) (polls st) (sigs st) (stop st) (now st) (kset st) v (rand st) (randn st) (regs st) (cnt st) (next_uid st) (out st) (uaf st).
-Definition set_rand v n st := Build_state (lv st) (timers st) (polls st) (sigs st) (stop st) (now st) (kset st) (sigpipe st) v n (regs st) (cnt st) (next_uid st) (out st) (uaf st).
-Definition set_regs v st := Build_state (lv st) (timers st) (polls st) (sigs st) (stop st) (now st) (kset st) (sigpipe st) (rand st) (randn st) v (cnt st) (next_uid st) (out st) (uaf st).
-Definition set_cnt v st := Build_state (lv st) (timers st) (polls st) (sigs st) (stop st) (now st) (kset st) (sigpipe st) (rand st) (randn st) (regs st) v (next_uid st) (out st) (uaf st).
-Definition set_next_uid v st := Build_state (lv st) (timers st) (polls st) (sigs st) (stop st) (now st) (kset st) (sigpipe st) (rand st) (randn st) (regs st) (cnt st) v (out st) (uaf st).
-Definition set_out v st := Build_state (lv st) (timers st) (polls st) (sigs st) (stop st) (now st) (kset st) (sigpipe st) (rand st) (randn st) (regs st) (cnt st) (next_uid st) v (uaf st).
-Definition set_uaf v st := Build_state (lv st) (timers st) (polls st) (sigs st) (stop st) (now st) (kset st) (sigpipe st) (rand st) (randn st) (regs st) (cnt st) (next_uid st) (out st) v.
+Definition set_lv_f (f : prio -> level) st := Build_state f (timers st) (polls st) (sigs st) (stop st) (now st) (kset st) (sigpipe st) (rand st) (randn st) (regs st) (sregs st) (cnt st) (next_uid st) (out st) (uaf st) (fx st).
+Definition set_timers v st := Build_state (lv st) v (polls st) (sigs st) (stop st) (now st) (kset st) (sigpipe st) (rand st) (randn st) (regs st) (sregs st) (cnt st) (next_uid st) (out st) (uaf st) (fx st).
+Definition set_polls v st := Build_state (lv st) (timers st) v (sigs st) (stop st) (now st) (kset st) (sigpipe st) (rand st) (randn st) (regs st) (sregs st) (cnt st) (next_uid st) (out st) (uaf st) (fx st).
+Definition set_sigs v st := Build_state (lv st) (timers st) (polls st) v (stop st) (now st) (kset st) (sigpipe st) (rand st) (randn st) (regs st) (sregs st) (cnt st) (next_uid st) (out st) (uaf st) (fx st).
+Definition set_stop v st := Build_state (lv st) (timers st) (polls st) (sigs st) v (now st) (kset st) (sigpipe st) (rand st) (randn st) (regs st) (sregs st) (cnt st) (next_uid st) (out st) (uaf st) (fx st).
+Definition set_now v st := Build_state (lv st) (timers st) (polls st) (sigs st) (stop st) v (kset st) (sigpipe st) (rand st) (randn st) (regs st) (sregs st) (cnt st) (next_uid st) (out st) (uaf st) (fx st).
+Definition set_kset v st := Build_state (lv st) (timers st) (polls st) (sigs st) (stop st) (now st) v (sigpipe st) (rand st) (randn st) (regs st) (sregs st) (cnt st) (next_uid st) (out st) (uaf st) (fx st).
+Definition set_sigpipe v st := Build_state (lv st) (timers st) (polls st) (sigs st) (stop st) (now st) (kset st) v (rand st) (randn st) (regs st) (sregs st) (cnt st) (next_uid st) (out st) (uaf st) (fx st).
+Definition set_rand v n st := Build_state (lv st) (timers st) (polls st) (sigs st) (stop st) (now st) (kset st) (sigpipe st) v n (regs st) (sregs st) (cnt st) (next_uid st) (out st) (uaf st) (fx st).
+Definition set_regs v st := Build_state (lv st) (timers st) (polls st) (sigs st) (stop st) (now st) (kset st) (sigpipe st) (rand st) (randn st) v (sregs st) (cnt st) (next_uid st) (out st) (uaf st) (fx st).
+Definition set_sregs v st := Build_state (lv st) (timers st) (polls st) (sigs st) (stop st) (now st) (kset st) (sigpipe st) (rand st) (randn st) (regs st) v (cnt st) (next_uid st) (out st) (uaf st) (fx st).
+Definition set_cnt v st := Build_state (lv st) (timers st) (polls st) (sigs st) (stop st) (now st) (kset st) (sigpipe st) (rand st) (randn st) (regs st) (sregs st) v (next_uid st) (out st) (uaf st) (fx st).
+Definition set_next_uid v st := Build_state (lv st) (timers st) (polls st) (sigs st) (stop st) (now st) (kset st) (sigpipe st) (rand st) (randn st) (regs st) (sregs st) (cnt st) v (out st) (uaf st) (fx st).
+Definition set_out v st := Build_state (lv st) (timers st) (polls st) (sigs st) (stop st) (now st) (kset st) (sigpipe st) (rand st) (randn st) (regs st) (sregs st) (cnt st) (next_uid st) v (uaf st) (fx st).
+Definition set_uaf v st := Build_state (lv st) (timers st) (polls st) (sigs st) (stop st) (now st) (kset st) (sigpipe st) (rand st) (randn st) (regs st) (sregs st) (cnt st) (next_uid st) (out st) v (fx st).
 
 Definition set_lv (p : prio) (l : level) st := set_lv_f (fun q => if prio_eqb q p then l else lv st q) st.
 Definition emit (e : ev) st := set_out (e :: out st) st.
@@ -247,18 +264,19 @@ Definition item_del (p : prio) (it : qitem) st :=
   else st.
 
 (* ------------------------------------------------------------------ jobs (loop_job.c) *)
+Definition item_uid (it : qitem) : Z := match it with QJob u _ => u | QSig u _ _ _ => u | _ => 0 end.
 Definition is_job_key (key : Z) (it : qitem) : bool := match it with QJob _ k => k =? key | _ => false end.
 (* qb_loop_job_add *)
 Definition job_add (p : prio) (key : Z) st : Z * state :=
   let '(u, st) := fresh_uid st in
-  (0, upd_level p (fun l => {| wait := wait l ++ [QJob u key]; jobq := jobq l; todo := todo l |}) st).
+  (0, upd_level p (fun l => {| wait := wait l ++ [QJob u key]; jobq := jobq l; todo := todo l |}) (emit (EvAdd 0 u p) st)).
 (* qb_loop_job_del *)
 Definition job_del (p : prio) (key : Z) st : Z * state :=
   match remove_first (is_job_key key) (wait (lv st p)) with
-  | Some (_, r) => (0, upd_level p (fun l => {| wait := r; jobq := jobq l; todo := todo l |}) st)
+  | Some (it, r) => (0, upd_level p (fun l => {| wait := r; jobq := jobq l; todo := todo l |}) (emit (EvDel 0 (item_uid it)) st))
   | None =>
       match find (is_job_key key) (jobq (lv st p)) with
-      | Some it => (0, item_del p it st)
+      | Some it => (0, item_del p it (emit (EvDel 0 (item_uid it)) st))
       | None => (- LOOP_ENOENT, st)
       end
   end.
@@ -297,6 +315,7 @@ Definition timer_add (p : prio) (dur key reg : Z) st : Z * state :=
   let '(i, st) := timer_slot st in
   let '(u, st) := fresh_uid st in
   let '(c, st) := draw_check 200 0 st in
+  let st := emit (EvAdd 1 u p) st in
   let st := set_timers (upd_nth i (fun _ => {| t_state := Active; t_check := c; t_p := p; t_key := key; t_uid := u;
                                               t_exp := Some (wrap64 (now st + dur)) |}) (timers st)) st in
   (0, set_regs (assoc_set reg (c * TWO32 + Z.of_nat i) (regs st)) st).
@@ -318,6 +337,7 @@ Definition timer_del (h : Z) st : Z * state :=
       | Empty => (- LOOP_EINVAL, st)
       | _ =>
           let st := match t_state t with Joblist => item_del (t_p t) (QTimer i) st | _ => st end in
+          let st := emit (EvDel 1 (t_uid t)) st in
           (0, set_timers (upd_nth i (fun t => {| t_state := Empty; t_check := t_check t; t_p := t_p t;
                                                  t_key := t_key t; t_uid := t_uid t; t_exp := None |}) (timers st)) st)
       end
@@ -410,8 +430,13 @@ Definition poll_add_gen (is_sig : bool) (p : prio) (fd events key : Z) st : Z * 
   let '(c, st) := draw_check_p 200 0 st in
   let '(res, st) := k_add fd (poll_to_epoll events) (c * TWO32 + Z.of_nat i) st in
   let mk (old : pslot) (ok : bool) :=
-    {| p_state := if ok then Active else Empty; p_check := c; p_fd := fd; p_events := events; p_revents := 0; p_p := p;
-       p_key := key; p_uid := u; p_sig := if ok then is_sig else p_sig old; p_fn := if ok then true else p_fn old |} in
+    if ok then
+      {| p_state := Active; p_check := c; p_fd := fd; p_events := events; p_revents := 0; p_p := p;
+         p_key := key; p_uid := u; p_sig := is_sig; p_fn := true |}
+    else if fx_polladd (fx st) then pslot_emptied
+    else {| p_state := Empty; p_check := c; p_fd := fd; p_events := events; p_revents := 0; p_p := p;
+            p_key := key; p_uid := u; p_sig := p_sig old; p_fn := p_fn old |} in
+  let st := if res =? 0 then emit (EvAdd 2 u p) st else st in
   (res, set_polls (upd_nth i (fun old => mk old (res =? 0)) (polls st)) st).
 (* qb_loop_poll_add *)
 Definition poll_add := poll_add_gen false.
@@ -443,6 +468,7 @@ Definition poll_del (fd : Z) st : Z * state :=
           | Deleted | Empty => (0, st)
           | _ =>
               let st := match p_state e with Joblist => item_del (p_p e) (QFd i) st | _ => st end in
+              let st := emit (EvDel 2 (p_uid e)) st in
               let '(res, st) := k_del fd st in
               (res, set_polls (upd_nth i mark_deleted (polls st)) st)
           end
@@ -457,7 +483,7 @@ Definition sig_find (id : Z) st : option sigreg := find (fun s => s_id s =? id) 
 (* qb_loop_signal_add; the handle (the registration's identity) goes to harness register reg *)
 Definition signal_add (p : prio) (signo key reg : Z) st : Z * state :=
   let '(u, st) := fresh_uid st in
-  (0, set_regs (assoc_set reg u (regs st)) (set_sigs (sigs st ++ [Build_sigreg u signo p key]) st)).
+  (0, set_sregs (assoc_set reg u (sregs st)) (set_sigs (sigs st ++ [Build_sigreg u signo p key]) (emit (EvAdd 3 u p) st))).
 (* qb_loop_signal_mod; a handle whose registration has been freed is a use after free *)
 Definition signal_mod (p : prio) (signo key h : Z) st : Z * state :=
   if h =? 0 then (- LOOP_EINVAL, st) else
@@ -466,19 +492,26 @@ Definition signal_mod (p : prio) (signo key h : Z) st : Z * state :=
   | Some _ => (0, set_sigs (map (fun s => if s_id s =? h then Build_sigreg h signo p key else s) (sigs st)) st)
   end.
 Definition is_clone_of (id : Z) (it : qitem) : bool := match it with QSig _ f _ _ => f =? id | _ => false end.
-(* qb_loop_signal_del: the wait_head scan never finds anything (clones are put on job_head only);
-   the FIRST clone on the job_head of the registration's CURRENT priority is unlinked (and leaked);
-   the registration is freed *)
+(* removal of every clone of registration h from level p's job_head (repaired qb_loop_signal_del):
+   one qb_loop_level_item_del(&l->level[p], clone) each *)
+Definition purge_clones (h : Z) (p : prio) st :=
+  upd_level p (fun l => {| wait := wait l; jobq := filter (fun it => negb (is_clone_of h it)) (jobq l);
+                           todo := todo l - zlen (filter (is_clone_of h) (jobq l)) |}) st.
+(* qb_loop_signal_del.  The wait_head scan never finds anything (clones are put on job_head only).
+   As found: the FIRST clone on the job_head of the registration's CURRENT priority is unlinked (and leaked).
+   Repaired (fixes/C08-signal-del-clones): every clone on the three job_heads is unlinked and freed.
+   Then the registration is freed. *)
 Definition signal_del (h : Z) st : Z * state :=
   if h =? 0 then (- LOOP_EINVAL, st) else
   match sig_find h st with
   | None => (0, flag_uaf 2 st)
   | Some s =>
-      let st := match find (is_clone_of h) (jobq (lv st (s_p s))) with
-                | Some it => item_del (s_p s) it st
-                | None => st
-                end in
-      (0, set_sigs (filter (fun s => negb (s_id s =? h)) (sigs st)) st)
+      let st := if fx_sigdel (fx st) then purge_clones h High (purge_clones h Med (purge_clones h Low st))
+                else match find (is_clone_of h) (jobq (lv st (s_p s))) with
+                     | Some it => item_del (s_p s) it st
+                     | None => st
+                     end in
+      (0, set_sigs (filter (fun s => negb (s_id s =? h)) (sigs st)) (emit (EvDel 3 h) st))
   end.
 (* _qb_signal_add_to_jobs_: one number is read from the pipe, one clone per matching registration *)
 Fixpoint clone_all (signo : Z) (l : list sigreg) (n : Z) st : Z * state :=
@@ -541,8 +574,8 @@ Definition exec_op (o : op) st : state :=
   | OPollMod p fd events key => ret 7 (poll_mod p fd events key st)
   | OPollDel fd => ret 8 (poll_del fd st)
   | OSigAdd p signo key reg => ret 9 (signal_add p signo key reg st)
-  | OSigMod p signo key reg => ret 10 (signal_mod p signo key (assoc reg (regs st)) st)
-  | OSigDel reg => ret 11 (signal_del (assoc reg (regs st)) st)
+  | OSigMod p signo key reg => ret 10 (signal_mod p signo key (assoc reg (sregs st)) st)
+  | OSigDel reg => ret 11 (signal_del (assoc reg (sregs st)) st)
   | OStop => set_stop true st                                     (* qb_loop_stop *)
   | OClose fd => set_kset (filter (fun k => negb (k_fd k =? fd)) (kset st)) st
   | ORaise signo => raise_signal signo st
@@ -561,14 +594,14 @@ Definition callback (beh : behaviour) (kind key a b : Z) st : Z * state :=
 (* dispatch_and_take_back of the four sources *)
 Definition dispatch (beh : behaviour) (it : qitem) st : state :=
   match it with
-  | QJob _ key => snd (callback beh 0 key 0 0 st)                                  (* job_dispatch *)
+  | QJob u key => snd (callback beh 0 key 0 0 (emit (EvInv 0 u) st))              (* job_dispatch *)
   | QTimer i =>                                                                    (* timer_dispatch *)
       match nth_error (timers st) i with
       | None => st
       | Some t =>
           let st := set_timers (upd_nth i (fun t => {| t_state := t_state t; t_check := 0; t_p := t_p t; t_key := t_key t;
                                                        t_uid := t_uid t; t_exp := t_exp t |}) (timers st)) st in
-          let '(_, st) := callback beh 1 (t_key t) 0 0 st in
+          let '(_, st) := callback beh 1 (t_key t) 0 0 (emit (EvInv 1 (t_uid t)) st) in
           set_timers (upd_nth i (fun t => {| t_state := Empty; t_check := t_check t; t_p := t_p t; t_key := t_key t;
                                              t_uid := t_uid t; t_exp := t_exp t |}) (timers st)) st
       end
@@ -576,13 +609,13 @@ Definition dispatch (beh : behaviour) (it : qitem) st : state :=
       match nth_error (polls st) i with
       | None => st
       | Some e =>
-          let '(res, st) := callback beh 2 (p_key e) (p_fd e) (p_revents e) st in
-          if res <? 0 then set_polls (upd_nth i mark_deleted (polls st)) st
+          let '(res, st) := callback beh 2 (p_key e) (p_fd e) (p_revents e) (emit (EvInv 2 (p_uid e)) st) in
+          if res <? 0 then set_polls (upd_nth i mark_deleted (polls st)) (emit (EvDel 2 (p_uid e)) st)
           else set_polls (upd_nth i (fun e => if est_eqb (p_state e) Deleted then e
                                               else set_prevents 0 (set_pstate Active e)) (polls st)) st
       end
   | QSig _ from signo key =>                                                       (* _signal_dispatch_and_take_back_ *)
-      let '(res, st) := callback beh 3 key signo 0 st in
+      let '(res, st) := callback beh 3 key signo 0 (emit (EvInv 3 from) st) in
       if res =? 0 then st else
       match sig_find from st with
       | None => flag_uaf 4 st            (* sig->cloned_from has been freed *)
@@ -660,18 +693,24 @@ Fixpoint run_go (beh : behaviour) (envs : list env) (rs : runstate) st : state *
       else let '(st, tis) := run_go beh es rs st in (st, ti :: tis)
   end.
 Definition run_start : runstate := {| r_pstop := Low; r_remaining := 0 |}.
+(* remaining_todo at the start of qb_loop_run: 0 as found; the todo left by an earlier run once C09's fix is in *)
+Definition run_start_of st : runstate :=
+  {| r_pstop := Low;
+     r_remaining := if fx_runtodo (fx st) then todo (lv st High) + todo (lv st Med) + todo (lv st Low) else 0 |}.
 Definition loop_run (beh : behaviour) (envs : list env) st : state * list turninfo :=
-  let '(st, tis) := run_go beh envs run_start (set_stop false st) in
+  let '(st, tis) := run_go beh envs (run_start_of st) (set_stop false st) in
   (emit EvRunRet st, tis).
 
 (* qb_loop_create: the signal source adds the pipe's read end at HIGH priority (consumes a check word) *)
 Definition level_init : level := {| wait := []; jobq := []; todo := 0 |}.
-Definition state_zero (rnd : list Z) : state :=
+Definition state_zero (f : fixes) (rnd : list Z) : state :=
   {| lv := fun _ => level_init; timers := []; polls := []; sigs := []; stop := false;
      now := 1000000000; kset := []; sigpipe := []; rand := rnd; randn := 0;
-     regs := []; cnt := []; next_uid := 1; out := []; uaf := false |}.
-Definition loop_create (rnd : list Z) : state :=
-  snd (poll_add_gen true High SIGPIPE_FD LOOP_POLLIN 0 (state_zero rnd)).
+     regs := []; sregs := []; cnt := []; next_uid := 1; out := []; uaf := false; fx := f |}.
+Definition loop_create_fx (f : fixes) (rnd : list Z) : state :=
+  snd (poll_add_gen true High SIGPIPE_FD LOOP_POLLIN 0 (state_zero f rnd)).
+(* the loop of the tree the constants were generated from *)
+Definition loop_create (rnd : list Z) : state := loop_create_fx tree_fixes rnd.
 
 (* a history: calls from outside the loop and runs *)
 Inductive cmd := CmdOp (o : op) | CmdRun (envs : list env).
@@ -680,8 +719,9 @@ Definition exec_cmd (beh : behaviour) (c : cmd) st : state :=
   | CmdOp o => exec_op o st
   | CmdRun envs => fst (loop_run beh envs st)
   end.
-Definition run_history (beh : behaviour) (h : list cmd) (rnd : list Z) : state :=
-  fold_left (fun s c => exec_cmd beh c s) h (loop_create rnd).
+Definition run_history_fx (f : fixes) (beh : behaviour) (h : list cmd) (rnd : list Z) : state :=
+  fold_left (fun s c => exec_cmd beh c s) h (loop_create_fx f rnd).
+Definition run_history (beh : behaviour) (h : list cmd) (rnd : list Z) : state := run_history_fx tree_fixes beh h rnd.
 
 (* behaviour table from an association list ((key, n), (ops, ret)); default: no calls, return 0 *)
 Fixpoint beh_of (tbl : list ((Z * Z) * (list op * Z))) (key n : Z) : list op * Z :=
